@@ -283,6 +283,22 @@ func engineRT(rep *Report) {
 			rep.Count("C15", "skip-many-sibling-groups", 1)
 		}
 	}
+	// ---- Skip: groups nested n deep, around protowire's nesting limit (what ConsumeField follows, Skip follows)
+	if si == 0 {
+		for _, n := range []int{1, 2, 64, 9998, 9999, 10000, 10001, 10002, 10003, 20000} {
+			var in []byte
+			for k := 0; k < n; k++ {
+				in = protowire.AppendTag(in, protowire.Number(1+k%7), protowire.StartGroupType)
+			}
+			in = protowire.AppendVarint(protowire.AppendTag(in, 3, protowire.VarintType), uint64(n))
+			for k := n - 1; k >= 0; k-- {
+				in = protowire.AppendTag(in, protowire.Number(1+k%7), protowire.EndGroupType)
+			}
+			rtCheckSkip(rep, in, false)
+			rep.Eval("C15", in, true)
+			rep.Count("C15", "skip-nested-groups-at-the-limit", 1)
+		}
+	}
 	// ---- Skip
 	nskip := rtSkipInputs(rep, -1)
 	rep.Count("C15", "skip-inputs", int64(nskip))
